@@ -513,9 +513,9 @@ class Run:
                     fired += 1
                     try:
                         cb(*args)
-                    except Exception as e:  # noqa
-                        self.late_tasks.append(("timer %s raised %s" % (getattr(cb, "__qualname__", "?"), type(e).__name__),
-                                                self.owner.get(id(me))))
+                    except Exception as e:  # noqa  (a failing timer callback is not a task: noted only)
+                        self.info.setdefault("timer_callbacks_raised", []).append(
+                            "%s: %s" % (getattr(cb, "__qualname__", "?"), type(e).__name__))
             for _ in range(6):
                 await asyncio.sleep(0)
         finally:
